@@ -388,6 +388,39 @@ def run_C06(chk):
                 if v == prev[1]: chk.count('pairs:equal')
                 else: chk.count('pairs:increasing')
             prev = (cs, v)
+    # the zones answered by the C library ("libc:UTC"; "libc:localtime" under a POSIX $TZ): the same order property, around the
+    # ends of the time_point range, the limits of int tm_year, the year's DST changes and the epoch
+    rng = chk.rng
+    for tzs in (None, 'UTC0', 'EST5', 'EST5EDT,M3.2.0,M11.1.0'):
+        seq = set()
+        for base in (C.civil_of_sec(I64MAX), C.civil_of_sec(I64MIN)):
+            v0 = C.sec_num(base)
+            for d in list(range(-70, 71)) + [rng.randrange(-40 * 86400, 40 * 86400) for _ in range(60)] + [k * 86400 for k in range(-30, 31)]: seq.add(C.civil_of_sec(v0 + d))
+        for y in (-2147483648 + 1900, 2147483647 + 1900, -2147483648, 2147483647, -2147483648 - 1900):
+            for dy in (-2, -1, 0, 1, 2):
+                seq.update([(y + dy, 1, 1, 0, 0, 0), (y + dy, 12, 31, 23, 59, 59), (y + dy, 6, 15, 12, 0, 0)])
+        for t0 in (0, 1710054000, 1730613600, 951782400):        # epoch, 2024-03-10 07:00Z, 2024-11-03 06:00Z, 2000-02-29
+            for d in list(range(-5, 6)) + [rng.randrange(-8000, 8000) for _ in range(40)] + [-18000, 18000, -3600, 3600, 3599, -3601]: seq.add(C.civil_of_sec(t0 + d))
+        for _ in range(100): seq.add(C.civil_of_sec(rng.randrange(-2**40, 2**40)))
+        seq = sorted(c for c in seq if C.in64(c[0]))
+        ll = ['libczone L' + (' local' if tzs else '')] + ['cv L %s' % C.fmt(c) for c in seq]
+        lo = run_lines(exe, ll, timeout=300, env=({'TZ': tzs} if tzs else None))
+        chk.cov['evaluations'] += len(ll); chk.cov['traces_validated_against_impl'] += len(ll)
+        zname = 'libc:UTC' if tzs is None else 'libc:localtime (TZ=%s)' % tzs
+        if not lo[0].startswith('ok'):
+            chk.report('%s does not load: %s' % (zname, lo[0]), {'op': ll[0], 'implementation': lo[0]}, sig='libc load'); continue
+        prev = None
+        for cs, o in zip(seq, lo[1:]):
+            try: v = int(o)
+            except ValueError:
+                chk.report('%s: convert(%s) gives %s' % (zname, C.fmt(cs), o), {'ops': [ll[0], 'cv L ' + C.fmt(cs)], 'env': tzs and 'TZ=' + tzs, 'implementation': o}, sig='%s cv %s' % (zname, site_sig(o)))
+                prev = None; continue
+            if prev is not None and v < prev[1]:
+                chk.report('%s: convert is not monotone: convert(%s) = %d > convert(%s) = %d' % (zname, C.fmt(prev[0]), prev[1], C.fmt(cs), v),
+                           {'ops': [ll[0], 'cv L ' + C.fmt(prev[0]), 'cv L ' + C.fmt(cs)], 'env': tzs and 'TZ=' + tzs, 'implementation': [prev[1], v]}, sig='%s monotone' % zname)
+            elif prev is not None:
+                good += 1; chk.count('libc-pairs')
+            prev = (cs, v)
     chk.cov['distinct_nontrivial'] = good
     chk.cov['zones'] = len(zones)
     chk.cov['rule'] = ('per zone one sorted sequence of civil seconds containing the neighbourhood of every (sampled) gap and overlap, the extension seam, far-future 400-year-shifted years and '
@@ -431,6 +464,10 @@ def run_C11(chk):
             for D in (1000, 3):
                 for r in (-(D - 1), -1, 0, 1, D - 1):
                     sub.append((D, t * D + r))
+        # floating-point time points (exact quarters of a second / of a millisecond), within the exactly representable range
+        for t in [t for t in (cand[:1] + cand[-2:]) if abs(t) < 2**38]:
+            for D in (-4, -4000):
+                for r in (-3, -1, 0, 1, 2, 3): sub.append((D, t * -D + r))
         sub = sorted(set(sub))
         for D, c in sub: b.append('subtr %s %d %d' % (zid(i), D, c))
         # the same queries right after a lookup that primed the table position for the interval starting / ending there
@@ -491,6 +528,7 @@ def run_C11(chk):
                     chk.count(kind + (':none' if T is None else ':found'))
         for j, (D, c) in enumerate(sub):
             o = out[1 + 2 * len(qs) + j]
+            D0, D = D, abs(D)
             fl = c // D                      # floor
             ce = -((-c) // D)                # ceiling
             jn = bisect.bisect_right(real, fl); nxt = real[jn] if jn < len(real) else None            # T > c/D  <=>  T > floor
@@ -498,7 +536,7 @@ def run_C11(chk):
             w = 'N %s | P %s' % (want(nxt), want(prv))
             if o != w:
                 chk.report('%s: next/prev_transition of the instant %d/%d s = `%s`; the earliest real change strictly after and the latest strictly before that instant are `%s`' % (zn.name, c, D, o, w),
-                           {'zone': zn.name, 'tzif_hex': Z.hx(zn.data), 'op': 'subtr %d %d' % (D, c), 'implementation': o, 'specification': w},
+                           {'zone': zn.name, 'tzif_hex': Z.hx(zn.data), 'op': 'subtr %d %d' % (D0, c), 'implementation': o, 'specification': w},
                            sig='%s subsecond %s' % (zn.name, 'prev' if o.split(' | ')[0] == w.split(' | ')[0] else 'next'))
             else:
                 good += 1; chk.count('subsecond:ok')
@@ -789,6 +827,39 @@ def run_C14(chk):
                 if o != ('ok equal=1 factory=0' if out[0].startswith('ok') else 'fail utc=1 factory=0'):
                     chk.report('%s: loading the same name again: %s (expected an equal zone and no access to the data source)' % (zn.name, o), {'zone': zn.name, 'op': l, 'implementation': o}, sig='reload')
                 else: good += 1
+    # format() and parse(): the same call gives the same text / instant whether it is the first thing the process
+    # does or comes after calls with much longer formats, wide field widths, other zones (buffers, flags and
+    # locale state must not leak from one call into the next)
+    zl = 'zone fz loose %s' % Z.hx(zones[0].data)
+    wide = [b'%100A', b'%90a|%H', b'%Y-%m-%d %90a|%H', b'%200Y', b'%64B %d', b'%50Z|%z', b'%c', b'%x %X', b'%EY %Ey', b'%A %B %p', b'%80p', b'%33j%33U',
+            b'%H:%M:%E*S', b'%E15S %E*f', b'%Y-%m-%dT%H:%M:%S%Ez', b'%a, %d %b %Y %T %z', b'%79A', b'%80A', b'%81A', b'%1024Y', b'%E4Y %ET %E*z', b'%s %%', b'%G-%V-%u', b'%k %l %P']
+    fprobes = []
+    for f in wide:
+        for t in (0, 1700000000 + rng.randrange(10**6), -rng.randrange(10**9)):
+            fprobes.append('fmt fz %d %d %s' % (t, rng.choice([0, 5 * 10**14, 123456789]), Z.hx(f)))
+    for f, txt in ((b'%Y-%m-%d %H:%M:%S', b'2024-02-29 23:59:59'), (b'%p %I:%M', b'PM 03:30'), (b'%I:%M %p', b'03:30 PM'), (b'%Y-%m-%d %H:%M:%E*S %Ez', b'1969-12-31 23:59:59.75 -05:00'),
+                   (b'%a %d %b %Y', b'Thu 29 Feb 2024'), (b'%s', b'-1'), (b'%H:%M', b'25:00'), (b'%Y-%m-%d', b'2023-02-29'), (b'%I %M', b'11 07')):
+        fprobes.append('parse fz %s %s' % (Z.hx(f), Z.hx(txt)))
+    fresh = {}
+    for q in fprobes:
+        fresh[q] = run_lines(exe, [zl, q])[1]               # a process of its own: no history at all
+    hist = [zl]
+    longs = [Z.hx(b'%A' + b'.' * 400), Z.hx(b'%c ' * 60), Z.hx(b'%1000Y'), Z.hx(b'%Y' * 300), Z.hx(b'%500A%500B'), Z.hx(b'x' * 5000 + b'%Z')]
+    for rnd in range(3):
+        order = fprobes[:]; rng.shuffle(order)
+        for q in order:
+            if rng.random() < 0.5: hist.append('fmt fz %d 0 %s' % (rng.randrange(-10**9, 10**10), rng.choice(longs)))
+            if rng.random() < 0.2: hist.append('parse fz %s %s' % (Z.hx(b'%p %I:%M:%S %Y'), Z.hx(b'PM 11:59:60 1999')))
+            hist.append(q)
+    ho = run_lines(exe, hist)
+    chk.cov['evaluations'] += len(hist) + len(fprobes); chk.cov['traces_validated_against_impl'] += len(hist) + len(fprobes)
+    chk.count('format-history:calls', len(hist))
+    for hi_, (q, o) in enumerate(zip(hist, ho)):
+        if q not in fresh: continue
+        if o != fresh[q]:
+            chk.report('the result of `%s` depends on earlier calls: `%s` after other format/parse calls, `%s` as the first call of a process' % (q[:120], o[:200], fresh[q][:200]),
+                       {'ops': hist[:hi_ + 1], 'with_history': o, 'fresh': fresh[q], 'note': 'the last op, run as the first call of a process (after the zone line), gives the `fresh` answer'}, sig='format history')
+        else: good += 1
     # "loading a name again returns a time_zone equal to the first one without consulting the data source
     # again" also when the first loads raced: the schedules of C13, judged by the re-load that follows each
     from .props_loader import run_sched_part
